@@ -3,6 +3,7 @@
 #include <stdexcept>
 
 #include "circ.hpp"
+#include "place_detailed/legalizer.hpp"
 
 using namespace coloquinte;
 using namespace vfc;
@@ -312,6 +313,26 @@ static void c11Constructed(Rng &rng, CaseResult &r) {
   } catch (const std::exception &e) {
     r.fail(inside ? "C11:relegalize-threw:orderingWidth-inside-0-1" : "C11:relegalize-threw:orderingWidth-outside-0-1", std::string(e.what()) + "; orderingWidth=" + std::to_string(params.legalization.orderingWidth));
   }
+  // the legalizer object itself: a second run() on the same object must leave the cells where the first one put them
+  if (r.viol.empty() && inside && rng.chance(0.5)) {
+    try {
+      Legalizer leg = Legalizer::fromIspdCircuit(c0);
+      bool staged = false;  // (runAbacus on an arbitrary subset is order-dependent by design: not used)
+      leg.run(params);
+      Circuit c1 = c0;
+      leg.exportPlacement(c1);
+      leg.run(params);
+      Circuit c2 = c0;
+      leg.exportPlacement(c2);
+      int mv1 = 0, mv2 = 0;
+      for (int i = 0; i < c0.nbCells(); ++i) { if (c0.cellX_[i] != c1.cellX_[i] || c0.cellY_[i] != c1.cellY_[i]) ++mv1; if (c1.cellX_[i] != c2.cellX_[i] || c1.cellY_[i] != c2.cellY_[i]) ++mv2; }
+      if (mv1) r.fail("C11:moved:orderingWidth-inside-0-1", std::to_string(mv1) + " cells moved by Legalizer::run on a constructed legal placement" + (staged ? " (after a staged runAbacus on some cells)" : ""));
+      if (mv2) r.fail("C11:second-run-of-the-legalizer-object-moved-cells", std::to_string(mv2) + " cells moved by a second run() on the same Legalizer object");
+      r.count("legalizer_objects_run_twice");
+    } catch (const std::exception &e) {
+      r.fail("C11:relegalize-threw:orderingWidth-inside-0-1", std::string("Legalizer object: ") + e.what());
+    }
+  }
   if (r.needSample()) r.sample = sampleJson(c0, "constructed-legal", pdesc);
 }
 
@@ -550,7 +571,7 @@ static void c10Case(Rng &rng, CaseResult &r) {
     Circuit c = c0;
     // at one callback of the run, other circuit objects come into play: a copy taken right there, an unrelated circuit placed
     // from inside the callback, and a nested placement call on the very circuit that is being placed
-    int sideAt = (int)rng.range(1, 3), sideKind = (int)rng.range(0, 3);
+    int sideAt = (int)rng.range(1, 3), sideKind = (int)rng.range(0, 4);
     std::string sideErr;
     PlacementCallback cb = [&](PlacementStep) {
       ++K;
@@ -577,6 +598,13 @@ static void c10Case(Rng &rng, CaseResult &r) {
         std::string e2 = settersRefused(c);
         if (!e2.empty()) { sideErr = "C10:setter-accepted-during-placement|after placing another circuit from inside callback " + std::to_string(K) + ": " + e2; return; }
         r.count("other_circuits_placed_in_a_callback");
+      } else if (sideKind == 3) {
+        // the circuit that is being placed is assigned to (a roll-back to a snapshot of itself): it stays busy
+        Circuit snap = c;
+        c = snap;
+        std::string e2 = settersRefused(c);
+        if (!e2.empty()) { sideErr = "C10:setter-accepted-during-placement-after-an-assignment|after 'circuit = snapshot' inside callback " + std::to_string(K) + " of the running call: " + e2; return; }
+        r.count("assignments_in_a_callback");
       } else if (sideKind == 2) {
         // a nested placement call on the circuit that is being placed: when it has ended the outer call is still in progress
         try { c.legalize(p2); } catch (const std::exception &) {}
